@@ -26,6 +26,8 @@ struct Th {
     pred: Option<*const (dyn Fn() -> bool + Sync)>,
     /// wait-for-thread predicate (join): ready when that thread is finished
     wait_for: Option<usize>,
+    /// adopted service thread of a manager: never finishes, parks in a modelled wait
+    daemon: bool,
 }
 unsafe impl Send for Th {}
 
@@ -50,6 +52,120 @@ struct State {
     max_points: usize,
     overrun: bool,
     panics: Vec<String>,
+    /// daemons of this execution have been told to leave the scheduler
+    released: bool,
+}
+
+/// service threads (background collectors) that announced themselves while adoption was on and
+/// are parked in their first modelled wait, waiting to be attached to the next execution
+struct PendingDaemon {
+    slot: std::sync::Arc<DaemonSlot>,
+    pred: *const (dyn Fn() -> bool + Sync),
+}
+unsafe impl Send for PendingDaemon {}
+
+struct DaemonSlot {
+    /// thread id within the execution it was attached to (usize::MAX: not attached yet)
+    id: std::sync::atomic::AtomicUsize,
+    /// execution counter at attachment
+    epoch: std::sync::atomic::AtomicU64,
+    /// told to behave like an ordinary thread from now on
+    released: std::sync::atomic::AtomicBool,
+}
+
+struct Daemons {
+    adopt: bool,
+    adopted: usize,
+    pending: Vec<PendingDaemon>,
+    /// slots of the daemons attached to the current execution
+    attached: Vec<std::sync::Arc<DaemonSlot>>,
+}
+
+static DAEMONS: Mutex<Daemons> = Mutex::new(Daemons { adopt: false, adopted: 0, pending: vec![], attached: vec![] });
+static EPOCH: std::sync::atomic::AtomicU64 = std::sync::atomic::AtomicU64::new(0);
+
+thread_local! {
+    static DSLOT: std::cell::RefCell<Option<std::sync::Arc<DaemonSlot>>> = const { std::cell::RefCell::new(None) };
+}
+
+/// Service threads of managers created from now on (until `adopt_daemons(false)`) are adopted.
+pub fn adopt_daemons(on: bool) {
+    let mut d = DAEMONS.lock().unwrap();
+    d.adopt = on;
+    if on {
+        d.adopted = 0;
+    }
+}
+
+/// Wait until `n` service threads have announced themselves since adoption was switched on, then
+/// switch adoption off.
+pub fn finish_adoption(n: usize) {
+    let t0 = std::time::Instant::now();
+    loop {
+        {
+            let mut d = DAEMONS.lock().unwrap();
+            if d.adopted >= n {
+                d.adopt = false;
+                return;
+            }
+        }
+        if t0.elapsed() > std::time::Duration::from_secs(20) {
+            println!("M a service thread did not announce itself within 20 s");
+            std::process::exit(2);
+        }
+        std::thread::sleep(std::time::Duration::from_micros(20));
+    }
+}
+
+fn hook_daemon_start(_res: usize) -> bool {
+    let mut d = DAEMONS.lock().unwrap();
+    if !d.adopt {
+        return false;
+    }
+    d.adopted += 1;
+    let slot = std::sync::Arc::new(DaemonSlot {
+        id: std::sync::atomic::AtomicUsize::new(usize::MAX),
+        epoch: std::sync::atomic::AtomicU64::new(0),
+        released: std::sync::atomic::AtomicBool::new(false),
+    });
+    DSLOT.with(|s| *s.borrow_mut() = Some(slot));
+    true
+}
+
+fn hook_daemon_wait(_res: usize, ready: &(dyn Fn() -> bool + Sync)) -> bool {
+    use std::sync::atomic::Ordering::SeqCst;
+    let Some(slot) = DSLOT.with(|s| s.borrow().clone()) else { return false };
+    if slot.released.load(SeqCst) {
+        CUR.with(|c| c.set(None));
+        return false;
+    }
+    // SAFETY of the lifetime extension: the pointer is only used while this thread is parked in here
+    let p: *const (dyn Fn() -> bool + Sync) = unsafe { std::mem::transmute(ready) };
+    let s = sched();
+    let id = slot.id.load(SeqCst);
+    if id == usize::MAX {
+        // first wait: not attached to an execution yet
+        DAEMONS.lock().unwrap().pending.push(PendingDaemon { slot: slot.clone(), pred: p });
+        let mut g = s.st.lock().unwrap();
+        s.cv.notify_all();
+        loop {
+            if slot.released.load(SeqCst) {
+                return false;
+            }
+            let id = slot.id.load(SeqCst);
+            if id != usize::MAX && g.active && g.current == Some(id) && slot.epoch.load(SeqCst) == EPOCH.load(SeqCst) {
+                CUR.with(|c| c.set(Some(id)));
+                return true;
+            }
+            g = s.cv.wait_timeout(g, std::time::Duration::from_millis(50)).unwrap().0;
+        }
+    }
+    // later waits: an ordinary blocking point of a controlled thread, except that a release ends it
+    let woke = s.daemon_yield(id, &slot, p);
+    if !woke {
+        CUR.with(|c| c.set(None));
+    }
+    woke
 }
 
 pub struct Sched {
@@ -70,6 +186,7 @@ fn sched() -> &'static Sched {
 pub fn install_hooks() {
     sched();
     let _ = verif::install(verif::Hooks { point: hook_point, acquire: hook_acquire, controlled: hook_controlled, join: hook_join });
+    let _ = verif::install_daemon_hooks(verif::DaemonHooks { daemon_start: hook_daemon_start, daemon_wait: hook_daemon_wait });
 }
 
 fn hook_controlled() -> bool {
@@ -108,7 +225,7 @@ fn hook_join(a: &mut (dyn FnMut() + Send), b: &mut (dyn FnMut() + Send)) {
 impl Sched {
     fn register_thread(&self) -> usize {
         let mut g = self.st.lock().unwrap();
-        g.threads.push(Th { st: St::Ready, pred: None, wait_for: None });
+        g.threads.push(Th { st: St::Ready, pred: None, wait_for: None, daemon: false });
         g.threads.len() - 1
     }
 
@@ -145,11 +262,11 @@ impl Sched {
             }
         }
         if enabled.is_empty() {
-            if g.threads.iter().all(|t| t.st == St::Finished) {
+            if g.threads.iter().all(|t| t.st == St::Finished || t.daemon) {
                 g.all_done = true;
                 g.current = None;
             } else {
-                let waiting: Vec<String> = g.threads.iter().enumerate().filter(|(_, t)| t.st != St::Finished).map(|(i, t)| format!("thread {i}{}", if t.wait_for.is_some() { " (join)" } else { " (lock)" })).collect();
+                let waiting: Vec<String> = g.threads.iter().enumerate().filter(|(_, t)| t.st != St::Finished && !t.daemon).map(|(i, t)| format!("thread {i}{}", if t.wait_for.is_some() { " (join)" } else { " (lock)" })).collect();
                 g.deadlock = Some(format!("no enabled thread; blocked: {}", waiting.join(", ")));
                 g.all_done = true;
                 g.current = None;
@@ -196,6 +313,34 @@ impl Sched {
                 }
             }
             g = self.cv.wait(g).unwrap();
+        }
+    }
+
+    /// blocking point of an attached daemon; false = released from the scheduler
+    fn daemon_yield(&self, me: usize, slot: &DaemonSlot, pred: *const (dyn Fn() -> bool + Sync)) -> bool {
+        use std::sync::atomic::Ordering::SeqCst;
+        let mut g = self.st.lock().unwrap();
+        if !g.active || slot.epoch.load(SeqCst) != EPOCH.load(SeqCst) || slot.released.load(SeqCst) {
+            return false;
+        }
+        g.threads[me].st = St::Ready;
+        g.threads[me].pred = Some(pred);
+        g.threads[me].wait_for = None;
+        self.decide(&mut g, Some(me), 200);
+        loop {
+            if slot.released.load(SeqCst) || slot.epoch.load(SeqCst) != EPOCH.load(SeqCst) {
+                return false;
+            }
+            if g.active && g.current == Some(me) && g.threads[me].st == St::Running {
+                return true;
+            }
+            if g.deadlock.is_some() {
+                drop(g);
+                loop {
+                    std::thread::park();
+                }
+            }
+            g = self.cv.wait_timeout(g, std::time::Duration::from_millis(50)).unwrap().0;
         }
     }
 
@@ -246,7 +391,36 @@ pub fn run_reporting_deadlock(prefix: &[usize], bodies: Vec<Box<dyn FnOnce() + S
         g.prefix = prefix.to_vec();
         g.max_points = 20000;
         for _ in 0..bodies.len() {
-            g.threads.push(Th { st: St::Ready, pred: None, wait_for: None });
+            g.threads.push(Th { st: St::Ready, pred: None, wait_for: None, daemon: false });
+        }
+    }
+    // attach the adopted service threads: wait until each of them is parked in its first modelled wait
+    {
+        use std::sync::atomic::Ordering::SeqCst;
+        let epoch = EPOCH.fetch_add(1, SeqCst) + 1;
+        let t0 = std::time::Instant::now();
+        loop {
+            let mut d = DAEMONS.lock().unwrap();
+            if d.pending.len() >= d.adopted {
+                let mut g = s.st.lock().unwrap();
+                let pend: Vec<PendingDaemon> = d.pending.drain(..).collect();
+                d.adopted = 0;
+                d.attached.clear();
+                for pd in pend {
+                    let id = g.threads.len();
+                    g.threads.push(Th { st: St::Ready, pred: Some(pd.pred), wait_for: None, daemon: true });
+                    pd.slot.epoch.store(epoch, SeqCst);
+                    pd.slot.id.store(id, SeqCst);
+                    d.attached.push(pd.slot);
+                }
+                break;
+            }
+            drop(d);
+            if t0.elapsed() > std::time::Duration::from_secs(20) {
+                println!("M an adopted service thread did not reach its modelled wait within 20 s");
+                std::process::exit(2);
+            }
+            std::thread::sleep(std::time::Duration::from_micros(50));
         }
     }
     // threads are not scoped-joined on deadlock: leak them and exit
@@ -282,8 +456,18 @@ pub fn run_reporting_deadlock(prefix: &[usize], bodies: Vec<Box<dyn FnOnce() + S
     for h in handles {
         let _ = h.join();
     }
+    // the service threads leave the scheduler and behave like ordinary threads from now on
+    {
+        use std::sync::atomic::Ordering::SeqCst;
+        let mut d = DAEMONS.lock().unwrap();
+        for slot in d.attached.drain(..) {
+            slot.released.store(true, SeqCst);
+        }
+    }
     let mut g = s.st.lock().unwrap();
     g.active = false;
+    g.released = true;
+    s.cv.notify_all();
     Execution { trace: std::mem::take(&mut g.trace), deadlock: None, overrun: g.overrun, panics: std::mem::take(&mut g.panics) }
 }
 
@@ -299,24 +483,39 @@ pub fn choices(trace: &[PointRec]) -> Vec<usize> {
 /// Stateless DFS with iterative preemption bounding. `exec(prefix)` runs one
 /// execution (fresh state!) and returns its trace after checking the oracle.
 /// Returns (schedules explored, max points per execution).
-pub fn explore(bound: usize, max_schedules: usize, mut exec: impl FnMut(&[usize]) -> Vec<PointRec>) -> (usize, usize, bool) {
+pub fn explore(bound: usize, max_schedules: usize, exec: impl FnMut(&[usize]) -> Vec<PointRec>) -> (usize, usize, bool) {
+    explore_part(bound, max_schedules, 0, 1, exec)
+}
+
+/// The same, restricted to one part of the schedule tree. Every part executes the default schedule
+/// and all schedules with exactly one deviation from it (they are needed to enumerate the rest and
+/// are cheap); of the schedules with two deviations, the one whose second deviation is at point j
+/// belongs to part j % parts, and everything below it belongs to the same part. Schedules with at
+/// most one deviation are counted by part 0 only, so that the counts of all parts add up to the
+/// number of distinct schedules.
+pub fn explore_part(bound: usize, max_schedules: usize, part: usize, parts: usize, mut exec: impl FnMut(&[usize]) -> Vec<PointRec>) -> (usize, usize, bool) {
     let mut stack: Vec<Vec<usize>> = vec![vec![]];
     let mut count = 0usize;
+    let mut executed = 0usize;
     let mut maxp = 0usize;
     let mut capped = false;
     while let Some(prefix) = stack.pop() {
-        if count >= max_schedules {
+        if executed >= max_schedules {
             capped = true;
             break;
         }
+        let deviations = prefix.iter().filter(|&&c| c != 0).count();
         let trace = exec(&prefix);
-        count += 1;
+        executed += 1;
+        if deviations >= 2 || part == 0 {
+            count += 1;
+        }
         maxp = maxp.max(trace.len());
         // alternatives at points beyond the prefix
         let mut pre = 0usize;
         let mut alts: Vec<Vec<usize>> = vec![];
         for (i, p) in trace.iter().enumerate() {
-            if i >= prefix.len() {
+            if i >= prefix.len() && (deviations != 1 || i % parts == part) {
                 for alt in 1..p.enabled.len() {
                     let cost = pre + if p.running_enabled { 1 } else { 0 };
                     if cost <= bound {
